@@ -300,32 +300,50 @@ theorem localStep_inv2 (k : Kind) (s : Nat) (q : Proc) (a : Act) (h1 : Inv1 q) (
 
 /-! ### world level: membership plumbing, invariants, preservation -/
 
-theorem mem_outsOf {w : World} {p : Nat} {a : Act} {o : Out} :
-    o ∈ outsOf w p a ↔ ∃ q ∈ w.procs, q.pid = p ∧ (localStep w.kind w.nextSerial q a).2 = o := by
+theorem sel_pid {p t : Nat} {q : Proc} (h : sel p t q = true) : q.pid = p := by
+  simp [sel] at h; exact h.1
+
+theorem mem_outsOf {w : World} {p t : Nat} {a : Act} {o : Out} :
+    o ∈ outsOf w p t a ↔ ∃ q ∈ w.procs, sel p t q = true ∧ (localStep w.kind w.nextSerial q a).2 = o := by
   unfold outsOf
   simp only [List.mem_filterMap]
   constructor
   · rintro ⟨q, hq, h⟩
-    by_cases hp : q.pid = p
+    by_cases hp : sel p t q = true
     · simp [hp] at h; exact ⟨q, hq, hp, h⟩
     · simp [hp] at h
   · rintro ⟨q, hq, hp, h⟩
     exact ⟨q, hq, by simp [hp, h]⟩
 
-theorem mem_step_act {w : World} {p : Nat} {a : Act} {q' : Proc} (h : q' ∈ (step w (.act p a)).procs) :
-    (q' ∈ w.procs ∧ q'.pid ≠ p) ∨ ∃ q ∈ w.procs, q.pid = p ∧ q' = (localStep w.kind w.nextSerial q a).1 := by
+theorem mem_step_act {w : World} {p t : Nat} {a : Act} {q' : Proc} (h : q' ∈ (step w (.act p t a)).procs) :
+    q' ∈ w.procs ∨ ∃ q ∈ w.procs, sel p t q = true ∧ q' = (localStep w.kind w.nextSerial q a).1 := by
   simp only [step, List.mem_map] at h
   obtain ⟨q, hq, rfl⟩ := h
-  by_cases hp : q.pid = p
+  by_cases hp : sel p t q = true
   · right; exact ⟨q, hq, hp, by simp [hp]⟩
   · left; simp [hp, hq]
 
-theorem mem_step_fork {w : World} {p : Nat} {q' : Proc} (h : q' ∈ (step w (.fork p)).procs) :
-    q' ∈ w.procs ∨ ∃ q ∈ w.procs, q.pid = p ∧ q' = { q with pid := w.nextPid, fresh := false } := by
+theorem mem_step_fork {w : World} {p t : Nat} {q' : Proc} (h : q' ∈ (step w (.fork p t)).procs) :
+    q' ∈ w.procs ∨ ∃ q ∈ w.procs, sel p t q = true ∧ q' = { q with pid := w.nextPid, fresh := false } := by
   simp only [step, List.mem_append, List.mem_map, List.mem_filter] at h
   rcases h with h | ⟨q, ⟨hq, hp⟩, rfl⟩
   · left; exact h
-  · right; exact ⟨q, hq, by simpa using hp, rfl⟩
+  · right; exact ⟨q, hq, hp, rfl⟩
+
+theorem mem_step_spawn {w : World} {p t : Nat} {q' : Proc} (h : q' ∈ (step w (.spawn p t)).procs) :
+    q' ∈ w.procs ∨ q' = { pid := p, tid := t, pool := initPool w.kind, held := none, fresh := true } := by
+  simp only [step] at h
+  split at h
+  · simp only [List.mem_append, List.mem_singleton] at h; exact h
+  · left; exact h
+
+theorem step_spawn_logs (w : World) (p t : Nat) :
+    (step w (.spawn p t)).returned = w.returned ∧ (step w (.spawn p t)).stmts = w.stmts ∧ (step w (.spawn p t)).closed = w.closed
+    ∧ (step w (.spawn p t)).attrErrors = w.attrErrors ∧ (step w (.spawn p t)).forkWhileHeld = w.forkWhileHeld
+    ∧ (step w (.spawn p t)).staleDisconnect = w.staleDisconnect ∧ (step w (.spawn p t)).kind = w.kind := by
+  simp only [step]; split <;> simp
+
+theorem initPool_con (k : Kind) : (initPool k).con = none := by cases k <;> rfl
 
 def WInv (w : World) : Prop :=
   (∀ q ∈ w.procs, Inv1 q) ∧ (∀ e ∈ w.returned, e.2.creator = e.1) ∧ w.attrErrors = 0
@@ -341,31 +359,38 @@ theorem init_inv (k : Kind) : WInv (init k) := by
 theorem step_inv (w : World) (e : Ev) (h : WInv w) : WInv (step w e) := by
   obtain ⟨hp, hr, ha⟩ := h
   cases e with
-  | act p a =>
+  | act p t a =>
     refine ⟨?_, ?_, ?_⟩
     · intro q' hq'
-      rcases mem_step_act hq' with ⟨hq, _⟩ | ⟨q, hq, _, rfl⟩
+      rcases mem_step_act hq' with hq | ⟨q, hq, _, rfl⟩
       · exact hp q' hq
       · exact localStep_inv1 _ _ _ _ (hp q hq)
     · intro e he
       simp only [step, List.mem_append, List.mem_map, List.mem_filterMap] at he
       rcases he with he | ⟨c, ⟨o, ho, hc⟩, rfl⟩
       · exact hr e he
-      · obtain ⟨q, hq, hpid, rfl⟩ := mem_outsOf.mp ho
-        simpa [hpid] using localStep_returned _ _ _ _ (hp q hq) c hc
+      · obtain ⟨q, hq, hsel, rfl⟩ := mem_outsOf.mp ho
+        simpa [sel_pid hsel] using localStep_returned _ _ _ _ (hp q hq) c hc
     · simp only [step]
-      have : (outsOf w p a).filter (·.attrError) = [] := by
+      have : (outsOf w p t a).filter (·.attrError) = [] := by
         rw [List.filter_eq_nil_iff]
         intro o ho
         obtain ⟨q, hq, _, rfl⟩ := mem_outsOf.mp ho
         simp [localStep_noattr _ _ _ _ (hp q hq)]
       simp [this, ha]
-  | fork p =>
+  | fork p t =>
     refine ⟨?_, by simpa [step] using hr, by simpa [step] using ha⟩
     intro q' hq'
     rcases mem_step_fork hq' with hq | ⟨q, hq, _, rfl⟩
     · exact hp q' hq
     · exact hp q hq
+  | spawn p t =>
+    obtain ⟨h1, _, _, h4, _⟩ := step_spawn_logs w p t
+    refine ⟨?_, by rw [h1]; exact hr, by rw [h4]; exact ha⟩
+    intro q' hq'
+    rcases mem_step_spawn hq' with hq | rfl
+    · exact hp q' hq
+    · intro c hc; simp [initPool_con] at hc
 
 theorem run_inv (evs : List Ev) : ∀ (w : World), WInv w → WInv (run w evs) := by
   induction evs with
@@ -392,17 +417,17 @@ theorem init_inv2 (k : Kind) : WInv2 (init k) := by
 theorem step_inv2 (w : World) (e : Ev) (h1 : WInv w) (h2 : WInv2 w) : WInv2 (step w e) := by
   intro hd
   cases e with
-  | act p a =>
-    have hd0 : disciplined w ∧ ∀ o ∈ outsOf w p a, o.staleDisconnect = false := by
+  | act p t a =>
+    have hd0 : disciplined w ∧ ∀ o ∈ outsOf w p t a, o.staleDisconnect = false := by
       obtain ⟨hf, hs⟩ := hd
       simp only [step, Bool.or_eq_false_iff, List.any_eq_false] at hf hs
       exact ⟨⟨hf, hs.1⟩, fun o ho => by simpa using hs.2 o ho⟩
     obtain ⟨hq2, hs, hc⟩ := h2 hd0.1
-    have key : ∀ q ∈ w.procs, q.pid = p → _ := fun q hq hp =>
+    have key : ∀ q ∈ w.procs, sel p t q = true → _ := fun q hq hp =>
       localStep_inv2 w.kind w.nextSerial q a (h1.1 q hq) (hq2 q hq) (hd0.2 _ (mem_outsOf.mpr ⟨q, hq, hp, rfl⟩))
     refine ⟨?_, ?_, ?_⟩
     · intro q' hq'
-      rcases mem_step_act hq' with ⟨hq, _⟩ | ⟨q, hq, hp, rfl⟩
+      rcases mem_step_act hq' with hq | ⟨q, hq, hp, rfl⟩
       · exact hq2 q' hq
       · exact (key q hq hp).1
     · intro e he
@@ -410,14 +435,25 @@ theorem step_inv2 (w : World) (e : Ev) (h1 : WInv w) (h2 : WInv2 w) : WInv2 (ste
       rcases he with he | ⟨c, ⟨o, ho, hc'⟩, rfl⟩
       · exact hs e he
       · obtain ⟨q, hq, hp, rfl⟩ := mem_outsOf.mp ho
-        simpa [hp] using (key q hq hp).2.1 c hc'
+        simpa [sel_pid hp] using (key q hq hp).2.1 c hc'
     · intro e he
       simp only [step, List.mem_append, List.mem_map, List.mem_flatMap] at he
       rcases he with he | ⟨c, ⟨o, ho, hc'⟩, rfl⟩
       · exact hc e he
       · obtain ⟨q, hq, hp, rfl⟩ := mem_outsOf.mp ho
-        simpa [hp] using (key q hq hp).2.2 c hc'
-  | fork p =>
+        simpa [sel_pid hp] using (key q hq hp).2.2 c hc'
+  | spawn p t =>
+    obtain ⟨_, h2', h3', _, h5, h6, _⟩ := step_spawn_logs w p t
+    have hd' : disciplined w := by
+      obtain ⟨hf, hs⟩ := hd
+      exact ⟨by rw [← h5]; exact hf, by rw [← h6]; exact hs⟩
+    obtain ⟨hq2, hst, hc⟩ := h2 hd'
+    refine ⟨?_, by rw [h2']; exact hst, by rw [h3']; exact hc⟩
+    intro q' hq'
+    rcases mem_step_spawn hq' with hq | rfl
+    · exact hq2 q' hq
+    · exact ⟨by intro c hc'; simp at hc', by intro _ c hc'; simp [initPool_con] at hc'⟩
+  | fork p t =>
     obtain ⟨hf, hs⟩ := hd
     simp only [step, Bool.or_eq_false_iff, List.any_eq_false] at hf hs
     obtain ⟨hq2, hst, hc⟩ := h2 ⟨hf.1, hs⟩
@@ -427,7 +463,7 @@ theorem step_inv2 (w : World) (e : Ev) (h1 : WInv w) (h2 : WInv2 w) : WInv2 (ste
     · exact hq2 q' hq
     · have hk : ({ q with pid := w.nextPid, fresh := false } : Proc).held.isSome = false := by
         have := hf.2 { q with pid := w.nextPid, fresh := false }
-          (by simp only [List.mem_map, List.mem_filter]; exact ⟨q, ⟨hq, by simp [hp]⟩, rfl⟩)
+          (by simp only [List.mem_map, List.mem_filter]; exact ⟨q, ⟨hq, hp⟩, rfl⟩)
         simpa using this
       constructor
       · intro c hc'
